@@ -146,7 +146,7 @@ def cursor_program(ctx):
             g = prog.callee(x) if x.get("k") in ("mcall", "call") else None
             if g is not None:
                 p = prog.post_true[g] if t else prog.post_false[g]
-                return [("atleast", p)] if p != TOP else [("atleast", TOP)]
+                return [("atleast", p)]
             # _text.substr(_pos + k, n) == "lit"  (true): the text has k + len(lit) more bytes
             cp = common.cmp_parts(x)
             if cp and cp[0] in ("==", "!=") and (t if cp[0] == "==" else not t):
@@ -187,7 +187,7 @@ def r1(ctx, r):
     for (f, e, need, have, what) in prog.violations:
         r.fail(f, e, "outside input: %s" % what.split(" (")[0], "%s performs `%s`, which needs %s byte(s) between the cursor and the end of the text, but only %s %s known to remain on some path%s: "
                "the parser reads or moves past the end of the input (undefined behaviour on a string_view; error offset outside the input)"
-               % (last(f.name), what, show_form(need) if need != TOP else "a bound the analysis cannot establish", show_form(have), "is" if have and have[0] == 1 else "are", prog.describe_site(f)))
+               % (last(f.name), what, show_form(need) if need != TOP else "a bound the analysis cannot establish", show_form(have), "is" if have == ((1, ()),) else "are", prog.describe_site(f)))
     # local index cursors (line/column scan)
     from ..window import Window
     for f in funcs:
@@ -217,7 +217,7 @@ def r1(ctx, r):
     offs = [e for e in gl.stmts() if assign_parts(e.node) and show(assign_parts(e.node)[0]).endswith("offset")]
     r.expect(len(offs) == 1 and is_pos(strip_casts(assign_parts(offs[0].node)[1])), gl, offs[0] if offs else None, "error offset source",
              "the reported error offset is not the parser cursor (which R1 keeps inside [0, size])", okdesc="error offset = _pos")
-    r.note("summaries: " + "; ".join("%s pre>=%s post(true)>=%s" % (last(f.name), show_form(prog.pre[f]), show_form(prog.post_true[f]) if prog.post_true[f] != TOP else "-") for f in funcs))
+    r.note("summaries: " + "; ".join("%s pre>=%s post(true)>=%s" % (last(f.name), show_form(prog.pre[f]), show_form(prog.post_true[f])) for f in funcs))
 
 
 def _loop_guard_path(f, app, chk_block):
